@@ -103,7 +103,14 @@ func (propC03) Expand(t *testing.T, p *Plan) []*Plan {
 				continue
 			}
 			class, _ := l.Classify(off)
-			out = append(out, mk(Fault{Kind: sweep, Container: c.ID, Open: -1, Offset: off}, class))
+			ek := ""
+			if sweep == "cut" && p.Run%2 == 1 {
+				ek = "unexpected"
+			}
+			if sweep == "read_error" {
+				ek = []string{"", "deadline", "closed"}[p.Run%3]
+			}
+			out = append(out, mk(Fault{Kind: sweep, Container: c.ID, Open: -1, Offset: off, ErrKind: ek}, class))
 		}
 	case "frame":
 		for fi := range l.Ends {
@@ -124,11 +131,13 @@ func (propC03) Expand(t *testing.T, p *Plan) []*Plan {
 					continue
 				}
 				class, _ := l.Classify(off)
-				kind := FaultCut
+				kind, ek := FaultCut, ""
 				if (off+fi)%3 == 0 {
 					kind = FaultReadError
+				} else if (off+int(p.Run))%2 == 0 {
+					ek = "unexpected"
 				}
-				out = append(out, mk(Fault{Kind: kind, Container: c.ID, Open: -1, Offset: off}, class))
+				out = append(out, mk(Fault{Kind: kind, Container: c.ID, Open: -1, Offset: off, ErrKind: ek}, class))
 			}
 			fk := frameKindsAll[(fi+int(p.Run))%len(frameKindsAll)]
 			out = append(out, mk(Fault{Kind: FaultFrame, Container: c.ID, Open: -1, Frame: fi, FrameKind: fk}, "frame:"+fk))
